@@ -69,6 +69,7 @@ def execute(ctx, pool, cases, group_key):
 def judge(ctx, cases, tag, shards=12):
     """TLC evaluates ResultOK on every case; returns the list of rejected case indices."""
     todo = [i for i, c in enumerate(cases) if not c["res"].get("panic") and not c["res"].get("hang")]
+    judge.known = set()
     if not todo:
         return []
     shards = max(1, min(shards, len(todo) // 50 + 1))
@@ -86,11 +87,13 @@ def judge(ctx, cases, tag, shards=12):
             raise vlib.Undecided("SqlSemJudge failed (shard %d)\n%s" % (n, "\n".join(r.out[-25:])))
         if got[0]["n"] != len(part):
             raise vlib.Undecided("SqlSemJudge read %d of %d cases" % (got[0]["n"], len(part)))
-        return [part[j - 1] for j in got[0]["bad"]]
-    bad = []
+        return [part[j - 1] for j in got[0]["bad"]], [part[j - 1] for j in got[0].get("known", [])]
+    bad, known = [], []
     with ThreadPoolExecutor(max_workers=min(shards, vlib.NCPU)) as ex:
-        for b in ex.map(one, range(shards)):
+        for b, k in ex.map(one, range(shards)):
             bad += b
+            known += k
+    judge.known = set(known)   # cases TLC recognises as the known finding avg-running-rounding (KnownRunningAvg)
     return sorted(bad)
 
 
